@@ -16,7 +16,7 @@ NAME = "C14"
 LEVEL = "exploration"
 
 PLAN = {
-    "quick": {"hashseeds": 12, "shards": 2, "generated": 240, "skip": ["1gid.cif.gz"], "cli_all_variants": False,
+    "quick": {"hashseeds": 12, "shards": 4, "generated": 240, "skip": ["1gid.cif.gz"], "cli_all_variants": False,
               "timeout": 600, "light_hashseeds": 16, "light_max_cost": 150_000, "adapter_generated": 36},
     "thorough": {"hashseeds": 48, "shards": 4, "generated": 4000, "skip": [], "cli_all_variants": True,
                  "timeout": 5400, "light_hashseeds": 80, "light_max_cost": 150_000, "adapter_generated": 600},
@@ -60,7 +60,8 @@ def corpus_items(tier):
             items.append({"id": "corpus/%s/gaps%d" % (name, int(gaps)), "type": "file", "path": path,
                           "find_gaps": gaps, "v2": not gaps, "v2_repeat": small or thorough,
                           "cli": (not gaps) or thorough, "cli_repeat": small or thorough,
-                          "lib": (not gaps) and (os.path.getsize(path) < 250_000 or thorough),
+                          "lib": (not gaps) and (os.path.getsize(path) < 90_000 or thorough),
+                          "lib_repeat": os.path.getsize(path) < 40_000 or thorough,
                           "cli_variants": ["-a", "-e", ""] if thorough else ["-a"],
                           "cost": os.path.getsize(path) * (3 if name.endswith(".gz") else 1)})
     return items
@@ -335,6 +336,10 @@ def check(tier, seed, workers):
     # container order that only matters for a minority of seeds needs many seeds to be seen
     light_seeds = [str((seed * 1009 + 1000 + j) % 4294967296) for j in range(plan.get("light_hashseeds", 0))]
     light_items = [it for it in items if it["cost"] <= plan.get("light_max_cost", 0) or it["type"] != "file"]
+    # the extra seeds are for hash-order effects in cheap computations: the dear library-level outputs and every
+    # second generated-annotation run stay with the main pass
+    light_items = [dict(it, lib=False) if it["type"] == "file" else it for it in light_items
+                   if not (it["type"] == "adapter_gen" and int(it["id"].split("/")[1]) % 2)]
     if light_seeds and light_items and not failures:
         ctx2 = {}
         c2, nt2, rows2, failures = explore(light_items, light_seeds, 1, workers, timeout, os.path.join(tmp, "light"),
